@@ -345,7 +345,7 @@ func cmacSection(x *h.X) {
 	if x.Thorough() {
 		maxIn = 1100
 	}
-	c.allLengths(seq(0, maxIn))
+	c.allLengths(append(seq(0, maxIn), ref.LongLengths(13, 17)...))
 }
 
 // cmacKeys returns deterministic keys covering all four (msb L, msb K1) combinations.
